@@ -31,6 +31,7 @@ type opDef struct {
 	User  int
 	Kind  string // lock unlock unlock-id unlock-force locks locks-json locks-verify locks-verify-json locks-cached edit-new edit-old edit-r restore commit checkout merge push
 	File  string
+	Files []string // lock / unlock: the path list of the command (File is its first element)
 	Fault *faultDef
 	Page  bool
 }
@@ -39,7 +40,18 @@ func (o opDef) deviates() bool { return o.Fault != nil || o.Page }
 
 func mk(u int, kind, file string) opDef {
 	n := users[u] + ": " + kindText(kind, file)
-	return opDef{Name: n, User: u, Kind: kind, File: file}
+	o := opDef{Name: n, User: u, Kind: kind, File: file}
+	if kind == "lock" || kind == "unlock" || kind == "unlock-force" {
+		o.Files = []string{file}
+	}
+	return o
+}
+
+// mkl is lock / unlock over a path list in one command.
+func mkl(u int, kind string, files ...string) opDef {
+	o := mk(u, kind, strings.Join(files, " "))
+	o.File, o.Files = files[0], files
+	return o
 }
 
 func kindText(kind, file string) string {
@@ -101,7 +113,7 @@ func (o opDef) with(f *faultDef, page bool) opDef {
 type node struct {
 	snap   snap
 	obs    *obs
-	dirty  [2][3]bool
+	dirty  [2][nFiles]bool
 	merged [2]bool
 	qEdit  [2]bool // q.dat was overwritten by edit-dup (then `merge side` would conflict and is not offered)
 	devs   int
@@ -320,11 +332,11 @@ func (e *envT) runOp(w *world, n *node, o opDef) (gitx.Res, string) {
 	}
 	switch o.Kind {
 	case "lock":
-		return lfs("lock", o.File)
+		return lfs(append([]string{"lock"}, o.Files...)...)
 	case "unlock":
-		return lfs("unlock", o.File)
+		return lfs(append([]string{"unlock"}, o.Files...)...)
 	case "unlock-force":
-		return lfs("unlock", "--force", o.File)
+		return lfs(append([]string{"unlock", "--force"}, o.Files...)...)
 	case "unlock-id":
 		return lfs("unlock", "--id", n.obs.tableAt(o.File).ID)
 	case "locks":
@@ -439,7 +451,7 @@ func (e *envT) step(w *world, pre *node, ro bool, o opDef, where string) stepOut
 	case "restore":
 		if res.OK() {
 			nn.dirty[u][fileI] = false
-			scope = []string{fP, fQ}
+			scope = []string{fP, fQ, fN}
 		}
 	case "commit":
 		if res.OK() && postHead != preHead {
@@ -448,7 +460,7 @@ func (e *envT) step(w *world, pre *node, ro bool, o opDef, where string) stepOut
 					scope = append(scope, f)
 				}
 			}
-			nn.dirty[u] = [3]bool{}
+			nn.dirty[u] = [nFiles]bool{}
 		}
 	case "checkout":
 		if res.OK() && post.branch(u) != pre.obs.branch(u) {
@@ -462,7 +474,7 @@ func (e *envT) step(w *world, pre *node, ro bool, o opDef, where string) stepOut
 	case "merge":
 		if res.OK() && postHead != preHead {
 			nn.merged[u] = true
-			scope = []string{fP, fQ}
+			scope = []string{fP, fQ, fN}
 		}
 	}
 
@@ -589,7 +601,7 @@ func (e *envT) step(w *world, pre *node, ro bool, o opDef, where string) stepOut
 			fk = "locks-verify" // same code path unless the call fails
 		}
 		fp := "C16:cache:" + fk + ":" + strings.Join(cls, "+")
-		if hits > 0 {
+		if hits > 0 && verifyKind {
 			fp = "C16:cache:" + fk + ":changed-by-failed-call"
 		}
 		so.viol(fp,
@@ -628,8 +640,14 @@ func (e *envT) step(w *world, pre *node, ro bool, o opDef, where string) stepOut
 	for i, f := range wfiles {
 		preW, postW := pre.obs.U[u].W[i], post.U[u].W[i]
 		if !post.U[u].Exists[i] {
-			so.viol("C16:file-vanished:"+o.Kind, fmt.Sprintf("%s\nthen `%s`: %s no longer exists in %s's clone", where, cmd, f, users[u]), nil)
+			// n.dat comes and goes with the branch; nothing else may remove a file
+			if pre.obs.U[u].Exists[i] && o.Kind != "checkout" {
+				so.viol("C16:file-vanished:"+o.Kind, fmt.Sprintf("%s\nthen `%s`: %s no longer exists in %s's clone", where, cmd, f, users[u]), nil)
+			}
 			continue
+		}
+		if !pre.obs.U[u].Exists[i] {
+			preW = postW // created by this operation (checkout / merge): only an obliged recomputation is judged
 		}
 		ctx := func() string {
 			return fmt.Sprintf("%s\nthen `%s` (exit %d) as %s, lfs.setlockablereadonly=%v: ", where, cmd, res.Code, users[u], ro)
@@ -664,20 +682,31 @@ func (e *envT) step(w *world, pre *node, ro bool, o opDef, where string) stepOut
 		so.counters["clause2_readonly_off_evaluations"]++
 	}
 	for i, f := range wfiles {
-		if pre.obs.U[v].W[i] != post.U[v].W[i] || pre.obs.U[v].Content[i] != post.U[v].Content[i] {
+		if pre.obs.U[v].W[i] != post.U[v].W[i] || pre.obs.U[v].Content[i] != post.U[v].Content[i] || pre.obs.U[v].Exists[i] != post.U[v].Exists[i] {
 			so.viol("C16:write-bit:"+fpKind+":other-clone-changed", fmt.Sprintf("%s\nthen `%s` by %s changed %s in the clone of %s", where, cmd, users[u], f, users[v]), nil)
 		}
 	}
 
-	// ---- clause 3: unlock without --force never releases the lock of a file with uncommitted changes
-	if (o.Kind == "unlock" || o.Kind == "unlock-id") && pre.dirty[u][fileI] {
-		if l := pre.obs.tableAt(o.File); l != nil {
+	// ---- clause 3: unlock without --force never releases the lock of a file with uncommitted changes (judged per path)
+	if o.Kind == "unlock" || o.Kind == "unlock-id" {
+		targets := o.Files
+		if o.Kind == "unlock-id" {
+			targets = []string{o.File}
+		}
+		for _, f := range targets {
+			if fi := fileIdx(f); fi < 0 || !pre.dirty[u][fi] {
+				continue
+			}
+			l := pre.obs.tableAt(f)
+			if l == nil {
+				continue
+			}
 			so.counters["clause3_unlock_of_modified_file_evaluations"]++
 			so.evals++
-			if post.tableAt(o.File) == nil || post.tableAt(o.File).ID != l.ID {
+			if post.tableAt(f) == nil || post.tableAt(f).ID != l.ID {
 				so.viol("C16:unlock-released-modified-file:"+o.Kind+map[bool]string{true: ":fault", false: ""}[hits > 0],
 					fmt.Sprintf("%s\nthen `%s` (exit %d) as %s while %s has uncommitted changes: the server released lock %s of %s (held by %s) although --force was not given\nstdout: %s\nstderr: %s",
-						where, cmd, res.Code, users[u], o.File, l.ID, l.Path, l.Owner, clip(res.Out, 300), clip(res.Err, 300)), nil)
+						where, cmd, res.Code, users[u], f, l.ID, l.Path, l.Owner, clip(res.Out, 300), clip(res.Err, 300)), nil)
 			}
 		}
 	}
@@ -771,8 +800,11 @@ func (e *envT) step(w *world, pre *node, ro bool, o opDef, where string) stepOut
 		if len(must) > 0 {
 			so.outcome += fmt.Sprintf(":recomputed%d", len(must))
 		}
-		if (o.Kind == "unlock" || o.Kind == "unlock-id") && pre.dirty[u][fileI] {
+		if (o.Kind == "unlock" || o.Kind == "unlock-id") && fileI >= 0 && pre.dirty[u][fileI] {
 			so.outcome += ":target-modified"
+		}
+		if len(o.Files) > 1 {
+			so.outcome += fmt.Sprintf(":paths%d:granted%d:released%d", len(o.Files), len(granted), len(released))
 		}
 	}
 	if hits > 0 {
@@ -929,6 +961,8 @@ func (e *envT) buildBase(w *world) snap {
 		must(gx.Git(dir, "checkout", "-q", "-b", "side"), "checkout -b side")
 		os.Chmod(filepath.Join(dir, fQ), 0644)
 		gitx.WriteFile(dir, fQ, []byte("q-side\n"), 0644)
+		gitx.WriteFile(dir, fN, []byte("n-side\n"), 0644)
+		must(gx.Git(dir, "add", fN), "add n.dat")
 		must(gx.Git(dir, "commit", "-q", "-a", "-m", "side"), "commit side")
 		must(gx.Git(dir, "checkout", "-q", "-b", "work", "main"), "checkout -b work")
 		head := strings.TrimSpace(gx.MustGit(dir, "rev-parse", "HEAD"))
@@ -955,6 +989,11 @@ func (e *envT) variant(w *world, base snap, verify string, ro bool) initState {
 			for _, f := range []string{fP, fQ} {
 				os.Chmod(filepath.Join(dir, f), 0644)
 			}
+			// n.dat lives on side only: make the committed state of the feature-off world consistent there too
+			w.gx.MustGit(dir, "checkout", "-q", "side")
+			os.Chmod(filepath.Join(dir, fN), 0644)
+			os.Chmod(filepath.Join(dir, fQ), 0644)
+			w.gx.MustGit(dir, "checkout", "-q", "work")
 		}
 	}
 	o := w.observe()
@@ -967,7 +1006,7 @@ func (e *envT) variant(w *world, base snap, verify string, ro bool) initState {
 func (e *envT) selfCheck(w *world, is initState) string {
 	o := is.Node.obs
 	for u, name := range users {
-		if o.U[u].W != [3]bool{false, false, true} {
+		if o.U[u].W != [nFiles]bool{false, false, true, false} || o.U[u].Exists != [nFiles]bool{true, true, true, false} {
 			return fmt.Sprintf("selfcheck: initial write bits of %s are %v, expected p,q read-only and r writable", name, o.U[u].W)
 		}
 		if len(o.U[u].Cache) != 0 || o.branch(u) != "work" {
@@ -1043,6 +1082,30 @@ func faultAlphabet(thorough bool) []opDef {
 		ops = append(ops, mk(u, "locks-verify", "").with(&faultDef{"lock-verify", 2, 500}, true))
 		ops = append(ops, mk(u, "locks-verify-json", "").with(&faultDef{"lock-verify", 2, 500}, true))
 		ops = append(ops, mk(u, "unlock", fP).with(nil, true))
+	}
+	return ops
+}
+
+// multiAlphabet: lock / unlock over path LISTS in one command ([p,q], [q,p]) and over a lockable path that is absent from the
+// current branch (n.dat exists on side only), each combined with fault answers on the n-th lock API request of the command,
+// so that one command has mixed per-path results (granted + conflict, released + refused, released + local chmod error).
+func multiAlphabet(thorough bool) []opDef {
+	var ops []opDef
+	for u := range users {
+		lpq, lqp := mkl(u, "lock", fP, fQ), mkl(u, "lock", fQ, fP)
+		upq, uqp := mkl(u, "unlock", fP, fQ), mkl(u, "unlock", fQ, fP)
+		ops = append(ops, lpq, lqp, upq, uqp, mk(u, "lock", fN), mk(u, "unlock", fN), mk(u, "lock", fQ), mk(u, "edit-new", fP), mk(u, "checkout", ""))
+		if thorough {
+			ops = append(ops, mkl(u, "lock", fN, fP), mkl(u, "unlock", fN, fP), mkl(u, "unlock-force", fP, fQ), mk(u, "merge", ""), mk(u, "locks-verify", ""))
+		}
+		ops = append(ops,
+			lpq.with(&faultDef{"lock-create", 1, 409}, false), lpq.with(&faultDef{"lock-create", 2, 409}, false), lqp.with(&faultDef{"lock-create", 2, 500}, false),
+			upq.with(&faultDef{"lock-delete", 1, 403}, false), upq.with(&faultDef{"lock-delete", 2, 403}, false), uqp.with(&faultDef{"lock-delete", 2, 500}, false),
+			upq.with(&faultDef{"lock-list", 2, 500}, false), mk(u, "unlock", fN).with(&faultDef{"lock-delete", 1, 500}, false))
+		if thorough {
+			ops = append(ops, lqp.with(&faultDef{"lock-create", 1, 403}, false), lpq.with(&faultDef{"lock-create", 2, 404}, false),
+				uqp.with(&faultDef{"lock-list", 1, 500}, false), uqp.with(&faultDef{"lock-delete", 1, 404}, false), upq.with(nil, true))
+		}
 	}
 	return ops
 }
@@ -1363,6 +1426,7 @@ func TestVerifC16(t *testing.T) {
 	lk := func(u int, f string) opDef { return mk(u, "lock", f) }
 	iP1Q2 := derive(iTrueOn, "p.dat locked by u1, q.dat locked by u2", lk(0, fP), lk(1, fQ))
 	iP2Q1 := derive(iTrueOn, "p.dat locked by u2, q.dat locked by u1", lk(1, fP), lk(0, fQ))
+	iN1 := derive(iTrueOn, "n.dat (absent on work) locked by u1", lk(0, fN))
 	iUnsetP1 := derive(iUnsetOn, "p.dat locked by u1", lk(0, fP))
 	iFalseP1 := derive(iFalseOn, "p.dat locked by u1", lk(0, fP))
 	var iP1, iP2, iQ1, iQ2, iPQ1, iPQ2 initState
@@ -1380,6 +1444,7 @@ func TestVerifC16(t *testing.T) {
 		parts = []partDef{
 			{Name: "locks", Inits: []initState{iTrueOn}, Ops: locksAlphabet(true, false), MaxDepth: 4, MaxDevs: 0, Share: 30, Sym: true},
 			{Name: "locks-faults", Inits: []initState{iTrueOn, iP1, iP1Q2}, Ops: faultAlphabet(true), MaxDepth: 3, MaxDevs: 1, Share: 20, Sym: true},
+			{Name: "locks-multi", Inits: []initState{iTrueOn, iP1Q2, iN1}, Ops: multiAlphabet(true), MaxDepth: 3, MaxDevs: 1, Share: 20, Sym: true},
 			{Name: "locks-readonly-off", Inits: []initState{iTrueOff}, Ops: locksAlphabet(false, false), MaxDepth: 3, MaxDevs: 0, Share: 5, Sym: true},
 			{Name: "push", Inits: []initState{iTrueOn, iP1, iP2, iQ1, iQ2, iP1Q2, iP2Q1, iPQ1, iPQ2}, Ops: pushAlphabet(true, []int{1}, true), MaxDepth: 4, MaxDevs: 1, Share: 30},
 			{Name: "push-deep", Inits: []initState{iTrueOn, iP1Q2, iP2Q1}, Ops: pushAlphabet(true, []int{1}, false), MaxDepth: 5, MaxDevs: 0, Share: 17},
@@ -1390,8 +1455,9 @@ func TestVerifC16(t *testing.T) {
 		parts = []partDef{
 			{Name: "locks", Inits: []initState{iTrueOn}, Ops: locksAlphabet(false, false), MaxDepth: 3, MaxDevs: 0, Share: 35, Sym: true},
 			{Name: "locks-faults", Inits: []initState{iTrueOn, iP1Q2}, Ops: faultAlphabet(false), MaxDepth: 2, MaxDevs: 1, Share: 20, Sym: true},
+			{Name: "locks-multi", Inits: []initState{iTrueOn, iP1Q2, iN1}, Ops: multiAlphabet(false), MaxDepth: 2, MaxDevs: 1, Share: 25, Sym: true},
 			{Name: "locks-readonly-off", Inits: []initState{iTrueOff}, Ops: locksAlphabet(false, false), MaxDepth: 2, MaxDevs: 0, Share: 7, Sym: true},
-			{Name: "push", Inits: []initState{iTrueOn, iP1Q2, iP2Q1}, Ops: pushAlphabet(false, []int{1}, true), MaxDepth: 4, MaxDevs: 1, Share: 33},
+			{Name: "push", Inits: []initState{iTrueOn, iP1Q2, iP2Q1}, Ops: pushAlphabet(false, []int{1}, true), MaxDepth: 4, MaxDevs: 1, Share: 30},
 			{Name: "push-verify-unset-or-false", Inits: []initState{iUnsetP1, iFalseP1}, Ops: pushMini(1), MaxDepth: 3, MaxDevs: 0, Share: 5},
 		}
 	}
